@@ -45,18 +45,21 @@ def name_table(prog, rep):
     lits = set()
 
     class W(OracleWorld):
+        def str_eq(self, st, a, b_):
+            if isinstance(a, Str) and isinstance(b_, Str):
+                lit = b_ if b_.tag[0] == "lit" else a
+                other = a if lit is b_ else b_
+                if lit.tag[0] != "lit" or other.tag != ("word",):
+                    raise AnalysisError("comparison of %r with %r" % (a.tag, b_.tag))
+                lits.add(lit.tag[1])
+                return st.ext["word"] == lit.tag[1]
+            raise AnalysisError("str eq of %r %r" % (a, b_))
+
         def call(self, m, st, callee, args, term):
             p = callee["path"]
             if p == STR_EQ:
                 a, b_ = deref_all(m, st, args[0]), deref_all(m, st, args[1])
-                if isinstance(a, Str) and isinstance(b_, Str):
-                    lit = b_ if b_.tag[0] == "lit" else a
-                    other = a if lit is b_ else b_
-                    if lit.tag[0] != "lit" or other.tag != ("word",):
-                        raise AnalysisError("comparison of %r with %r" % (a.tag, b_.tag))
-                    lits.add(lit.tag[1])
-                    return ip.boolean(st.ext["word"] == lit.tag[1])
-                raise AnalysisError("str eq of %r %r" % (a, b_))
+                return ip.boolean(self.str_eq(st, a, b_))
             if callee["crate"] not in ("precis_tools",) and p not in m.models:
                 # error-message formatting etc.: irrelevant to the mapping, total
                 return ty_.fresh(self.prog, st.frames[-1].body.locals[term["dest"]["l"]]["ty"], ("ext", callee["name"], st.fresh()))
@@ -118,6 +121,10 @@ class WireWorld(OracleWorld):
             s, n, pat = args
             st.emit(("splitn", deref_all(m, st, s).tag, n.v if isinstance(n, I) else repr(n), pat.v if isinstance(pat, I) else repr(pat)))
             return Opq("splitn", (deref_all(m, st, s).tag,))
+        if p in ("core::str::<impl str>::split", "core::str::<impl str>::rsplitn", "core::str::<impl str>::rsplit", "core::str::<impl str>::split_terminator"):
+            s, pat = args[0], args[-1]
+            st.emit((callee["name"], deref_all(m, st, s).tag, "unbounded" if len(args) == 2 else (args[1].v if isinstance(args[1], I) else "?"), pat.v if isinstance(pat, I) else repr(pat)))
+            return Opq("splitn", (deref_all(m, st, s).tag, "unbounded"))
         if p == "core::iter::traits::iterator::Iterator::collect":
             it = args[0]
             if isinstance(it, Opq) and it.kind == "splitn":
@@ -126,7 +133,7 @@ class WireWorld(OracleWorld):
         if p == "alloc::vec::Vec::<T, A>::len":
             v = deref_all(m, st, args[0])
             if isinstance(v, Opq) and v.kind == "fields":
-                return I(st.choose(("nfields",), [1, 2, 3]), "usize")
+                return I(st.choose(("nfields",), [1, 2, 3] if len(v.data) == 1 else [1, 2, 3, 4]), "usize")
         if p == "<alloc::vec::Vec<T, A> as core::ops::index::Index<I>>::index":
             v = deref_all(m, st, args[0])
             i = args[1]
@@ -171,7 +178,7 @@ def field_wiring(prog, rep):
     got = set()
     for o in outs:
         n = o.state.facts.get(("nfields",))
-        evs = tuple(e for e in o.state.events if e[0] in ("leaf", "splitn"))
+        evs = tuple(e for e in o.state.events if e[0] in ("leaf", "splitn", "split", "rsplitn", "rsplit", "split_terminator"))
         if o.kind != "return":
             got.add((n, evs, (o.kind, o.info)))
             continue
